@@ -80,7 +80,10 @@ impl<Val> CidStore<Val> {
 
 impl<Val: Serialize> CidStore<Val> {
     pub fn verify(&self) -> Result<(), CidStoreVerificationError> {
-        for (cid, value) in &self.0 {
+        // in CID order: the entry named by the error must not depend on the hash map iteration order
+        let mut entries: Vec<_> = self.0.iter().collect();
+        entries.sort_unstable_by_key(|(cid, _)| cid.get_inner());
+        for (cid, value) in entries {
             verify_value(cid, value)?;
         }
         Ok(())
@@ -89,7 +92,9 @@ impl<Val: Serialize> CidStore<Val> {
 
 impl CidStore<RawValue> {
     pub fn verify_raw_value(&self) -> Result<(), CidStoreVerificationError> {
-        for (cid, value) in &self.0 {
+        let mut entries: Vec<_> = self.0.iter().collect();
+        entries.sort_unstable_by_key(|(cid, _)| cid.get_inner());
+        for (cid, value) in entries {
             verify_raw_value(cid, value.as_inner())?;
         }
         Ok(())
